@@ -389,8 +389,8 @@ func (r *Runner) Run() {
 	debug.SetMaxStack(64 << 20)
 	verifsim.SetPool(spec.Pool, model.Mix(spec.Seed, 0x9001))
 	verifsim.OnStall = func(stacks string) {
-		r.J.put(&Rec{K: "V", Prop: "C08", Sig: "C08/deadlock/blocked-outside-scheduler", Msg: "no task has passed a yield point for " + strconv.Itoa(verifsim.StallSeconds) +
-			" s of wall time: the task that holds the run token is blocked in an operation the simulator does not schedule (channel operation, real lock, system call) while every other task is parked\n" + frugalStacks(stacks)})
+		r.J.put(&Rec{K: "V", Prop: "C08", Sig: "C08/deadlock/blocked-outside-scheduler", Msg: "no task can go on: the task that holds the run token is blocked in an operation the simulator does not schedule (channel operation, real lock) " +
+			"and every other unfinished task is blocked too, or waits for one that is (after " + strconv.Itoa(verifsim.ExtHandoffs) + " hand-overs of the token from blocked tasks to runnable ones)\n" + frugalStacks(stacks)})
 		r.J.put(&Rec{K: "end", End: map[string]interface{}{"stalled": true, "viol": 1, "evals": 1, "rounds": 1, "steps": 0, "switches": 0}})
 		os.Exit(0)
 	}
@@ -492,7 +492,7 @@ func (r *Runner) Run() {
 		"events": r.stats.events, "first_use": r.stats.firstUse, "max_live": r.stats.maxLive, "extents": r.stats.checkedExtents, "sweeps": r.stats.sweeps,
 		"dec_ok": r.stats.decOK, "dec_err": r.stats.decErr, "enc_ok": r.stats.encOK, "enc_err": r.stats.encErr, "size_ok": r.stats.sizeOK,
 		"size_panic": r.stats.sizePanic, "legacy": r.stats.legacy, "blocked_acq": res.BlockedAcq, "task_steps": res.TaskSteps,
-		"race_build": verifsim.RaceBuild, "go": runtime.Version(), "rounds": rounds,
+		"race_build": verifsim.RaceBuild, "ext_handoffs": verifsim.ExtHandoffs, "go": runtime.Version(), "rounds": rounds,
 	}
 	if len(res.SwitchLog) > 0 && len(res.SwitchLog) <= 400 {
 		var sw []int64
